@@ -239,6 +239,7 @@ func buildNetconf(version string, open bool) func(c sessCfg) (*sess, error) {
 			Advertises: map[string]bool{"1.0": true, "1.1": true}, Reply: ncReplyOK,
 		}
 		s.pipe = c.pipe(s.srv)
+		s.pipe.MsgBounds = true
 		o := append(c.base(s.pipe), options.WithNetconfPreferredVersion(version))
 
 		var err error
